@@ -2,6 +2,70 @@
 open Bbm_model
 open Bbm_util
 
+(* same as Cmd_core.field_of_mresult *)
+let field_of_mresult (r : mresult) =
+  String.concat "|" [ string_of_termres r.r_result; string_of_n r.r_steps;
+                      string_of_n r.r_cycles; string_of_n r.r_marks; string_of_n r.r_rulapp;
+                      field_of_oslot r.r_last_slot; field_of_blanks r.r_blanks ]
+
+let app_record (a : rule_app) : string =
+  String.concat " " [ string_of_n a.app_cycle; string_of_n a.app_state;
+                      field_of_tape a.app_before; field_of_rule a.app_rule;
+                      string_of_n a.app_times; field_of_tape a.app_after ]
+
+let cmd_prover trace prog lim =
+  let (r, apps) = unwrap (run_prover_trace (comp_of_text prog) (n_of_string lim)) in
+  let recs = String.concat ";" (List.map app_record apps) in
+  field_of_mresult r ^ "|" ^ string_of_int (List.length apps) ^ "|" ^ fnv recs
+  ^ (if trace then "|" ^ recs else "")
+
+(* Diagnostic: at which site does the model panic?  Replays the main loop with
+   the extracted [prover_body] and classifies the Panic by re-evaluating the parts
+   of that iteration; the labels are the Rust source locations of the
+   corresponding panics (compared with the harness command of the same name). *)
+let cmd_proverwhy prog lim =
+  let comp = comp_of_text prog in
+  let lim = int_of_n (n_of_string lim) in
+  let big x = N.ltb u64_max x in
+  let step_site (q : qstate) =
+    let q' = (match quick_body comp q with Inl q' -> q' | Inr (_, q') -> q') in
+    let stepped = N.sub q'.q_steps q.q_steps in
+    if big stepped then "tape.rs:173"
+    else if big (head_count q'.q_tape.lspan) || big (head_count q'.q_tape.rspan) then "tape.rs:65"
+    else if big q'.q_steps then "machine.rs:275"
+    else "?step" in
+  let classify (s : pstate) =
+    let q = s.ps_q in
+    match try_rule comp s.ps_prover q.q_cycle q.q_state q.q_tape with
+    | Panic -> "prover.rs:try_rule"
+    | Ok (res, _) ->
+      (match res with
+       | Some (Got r) ->
+         (match apply_rule q.q_tape r with
+          | Panic -> "rules.rs:apply_rule"
+          | Ok (Some times, _) -> if big (N.add s.ps_rulapp times) then "machine.rs:244" else "?apply"
+          | Ok (None, _) -> step_site q)
+       | Some _ -> "?result"
+       | None -> step_site q) in
+  let napps (s : pstate) = string_of_int (List.length s.ps_apps) in
+  let fin s x = (match finish_prover s x with
+      | Panic -> "PANIC napps=" ^ napps s ^ " at marks"
+      | Ok _ -> "ok napps=" ^ napps s) in
+  let rec go i (s : pstate) =
+    if i >= lim then fin s (Inl s.ps_q)
+    else match prover_body comp s with
+      | Inl s' -> go (i + 1) s'
+      | Inr Panic ->
+        let site = classify s in
+        (* the hook records the application before [rulapp += times] overflows *)
+        let n = List.length s.ps_apps + (if site = "machine.rs:244" then 1 else 0) in
+        "PANIC napps=" ^ string_of_int n ^ " at " ^ site
+      | Inr (Ok (((res, cyc), ls), s')) -> fin s' (Inr (((res, cyc), ls), s'.ps_q)) in
+  go 0 prover_init
+
 let dispatch (fields : string list) : string option =
   match fields with
+  | ["prover"; prog; lim] -> Some (cmd_prover false prog lim)
+  | ["provertrace"; prog; lim] -> Some (cmd_prover true prog lim)
+  | ["proverwhy"; prog; lim] -> Some (cmd_proverwhy prog lim)
   | _ -> None
